@@ -58,6 +58,13 @@ def discharge(ob, extra_hyps=(), timeout_ms=10000, use_cvc5=True):
         ob.model = s.model()
     else:
         ob.result = 'unknown'
+        # R4: models are found on small instances -- bound every integer symbol and retry (sound for refutation only)
+        for B in (2, 4, 8):
+            r3, dt3, s3 = z3_check(hyps + small_bounds(hyps + [ob.goal], B), ob.goal, max(2000, timeout_ms // 4))
+            ob.time += dt3
+            if r3 == sat:
+                ob.result = 'refuted'; ob.model = s3.model(); ob.backend = f'z3(bounded-ints<={B})'
+                return ob
         if use_cvc5:
             res, dt2 = cvc5_check(s, timeout_ms)
             ob.time += dt2
@@ -72,3 +79,20 @@ def discharge(ob, extra_hyps=(), timeout_ms=10000, use_cvc5=True):
                 else:
                     ob.result = 'refuted'; ob.backend = 'cvc5'; ob.model = None
     return ob
+
+
+def small_bounds(exprs, B):
+    """|c| <= B for every uninterpreted integer constant occurring in exprs"""
+    seen = set(); consts = {}
+    stack = list(exprs)
+    while stack:
+        t = stack.pop()
+        if t.get_id() in seen:
+            continue
+        seen.add(t.get_id())
+        if z3.is_quantifier(t):
+            stack.append(t.body()); continue
+        if z3.is_const(t) and t.decl().kind() == z3.Z3_OP_UNINTERPRETED and z3.is_int(t):
+            consts[t.get_id()] = t
+        stack.extend(t.children())
+    return [z3.And(c >= -B, c <= B) for c in consts.values()]
